@@ -878,6 +878,10 @@ func (t *FnTrans) ghostAt(where string) {
 	}
 	for _, g := range t.ct.Ghost {
 		if g.Arg == where {
+			if t.ghostHit == nil {
+				t.ghostHit = map[*Clause]bool{}
+			}
+			t.ghostHit[g] = true
 			t.ghostUpdate(g, t.selfEnv(t.cur, t.entry))
 		}
 	}
